@@ -285,6 +285,27 @@ func (w *world) stop(t int) {
 	w.rec("tr", t)
 }
 
+// stopInvoked waits until the Stop call has been recorded and then long enough for it to clear `running`
+// and reach its Wait (or to return, if it does not wait).
+func (w *world) stopInvoked(done chan struct{}) {
+	deadline := time.Now().Add(stressBound)
+	for time.Now().Before(deadline) {
+		w.mu.Lock()
+		seen := false
+		for _, e := range w.ev {
+			if strings.HasPrefix(e, "tc ") {
+				seen = true
+			}
+		}
+		w.mu.Unlock()
+		if seen {
+			break
+		}
+		time.Sleep(50 * time.Microsecond)
+	}
+	waitFor(done, time.Duration(w.c.t)*time.Millisecond+3*time.Millisecond)
+}
+
 func waitFor(ch chan struct{}, d time.Duration) bool {
 	select {
 	case <-ch:
@@ -364,7 +385,6 @@ func (w *world) finish(prod []chan struct{}, stoppers []chan struct{}, bound tim
 // ---------------------------------------------------------------------------------------------
 // scenarios
 
-const forcedBound = 1500 * time.Millisecond
 const stressBound = 6 * time.Second
 
 func run(c cfg) []string {
@@ -379,8 +399,8 @@ func run(c cfg) []string {
 		return w.finish([]chan struct{}{p0}, []chan struct{}{s0}, stressBound)
 
 	case "window", "window-block":
-		// every producer parks at the yield point (after its running check), Stop runs to completion
-		// (the writer exits: nothing is counted), then the producers are released one after the other
+		// every producer parks at the yield point (after its running check), Stop is invoked and given time
+		// to reach its Wait, then the producers are released one after the other
 		parked := make(chan int, c.p)
 		release := make([]chan struct{}, c.p)
 		for i := range release {
@@ -400,17 +420,17 @@ func run(c cfg) []string {
 			}
 		}
 		s0 := w.spawn(100, func() { w.stop(0) })
-		waitFor(s0, stressBound)
+		w.stopInvoked(s0)
 		for p := 0; p < c.p; p++ {
 			close(release[p])
 			waitFor(prod[p], 200*time.Millisecond)
 		}
 
-		return w.finish(prod, []chan struct{}{s0}, forcedBound)
+		return w.finish(prod, []chan struct{}{s0}, stressBound)
 
 	case "window-dup":
 		// producer 0 parks inside BatchWriteScheduled right after it set the flag; producer 1 enqueues
-		// the same object, finds it scheduled and returns; Stop; producer 0 is released
+		// the same object, finds it scheduled and returns; Stop is invoked; producer 0 is released
 		parked := make(chan struct{}, 1)
 		release := make(chan struct{})
 		w.cas = func(p int, o *obj, fresh bool) {
@@ -427,11 +447,11 @@ func run(c cfg) []string {
 		p1 := w.spawn(1, func() { w.enqueue(1, w.objs[0]) })
 		waitFor(p1, stressBound)
 		s0 := w.spawn(100, func() { w.stop(0) })
-		waitFor(s0, stressBound)
+		w.stopInvoked(s0)
 		close(release)
-		waitFor(p0, forcedBound)
+		waitFor(p0, stressBound)
 
-		return w.finish([]chan struct{}{p0, p1}, []chan struct{}{s0}, forcedBound)
+		return w.finish([]chan struct{}{p0, p1}, []chan struct{}{s0}, stressBound)
 
 	default: // stress
 		rng := hx.NewRng(c.seed)
@@ -680,6 +700,37 @@ func windowRace(lines []string) bool {
 	return false
 }
 
+// projections renders a trace per participant (the interleaving of the writer with the producers is not
+// determined by a forced schedule, the order within each participant is): producers, flag test-and-sets,
+// Stop, writer.
+func projections(lines []string, producers int) string {
+	var parts []string
+	for p := 0; p < producers; p++ {
+		var t []string
+		for _, l := range lines {
+			e := parseEv(l)
+			if (e.k == "ec" || e.k == "hk" || e.k == "er" || e.k == "bl") && e.a == p {
+				t = append(t, strings.ReplaceAll(l, " ", "."))
+			}
+		}
+		parts = append(parts, fmt.Sprintf("P%d:", p)+strings.Join(t, ","))
+	}
+	for _, grp := range []struct {
+		name  string
+		kinds string
+	}{{"F:", " sn sd "}, {"S:", " tc tr bs "}, {"W:", " rs w cm d "}} {
+		var t []string
+		for _, l := range lines {
+			if strings.Contains(grp.kinds, " "+parseEv(l).k+" ") {
+				t = append(t, strings.ReplaceAll(l, " ", "."))
+			}
+		}
+		parts = append(parts, grp.name+strings.Join(t, ","))
+	}
+
+	return strings.Join(parts, "|")
+}
+
 // ---------------------------------------------------------------------------------------------
 
 var failCount = map[string]int{}
@@ -707,15 +758,8 @@ func emit(r *hx.Run, sub uint64, res result) (failed bool) {
 	}
 	switch res.c.kind {
 	case "window", "window-block", "window-dup":
-		// the same forced schedule exists as a Lean witness; the model's trace must be this one
-		var t []string
-		for _, l := range res.ev {
-			if strings.HasPrefix(l, "st ") || strings.HasPrefix(l, "sx ") {
-				continue
-			}
-			t = append(t, strings.ReplaceAll(l, " ", "."))
-		}
-		r.Line(fmt.Sprintf("model %s q=%d p=%d", res.c.kind, res.c.q, res.c.p), strings.Join(t, ","))
+		// the same forced schedule exists as a Lean witness; per participant the model's trace must be this one
+		r.Line(fmt.Sprintf("model %s q=%d p=%d", res.c.kind, res.c.q, res.c.p), projections(res.ev, res.c.p))
 	}
 	r.Count("kind:" + res.c.kind)
 	r.Count(fmt.Sprintf("q:%d", res.c.q))
@@ -875,7 +919,7 @@ func main() {
 	}
 	for q := 1; q <= 2; q++ {
 		_, s := r.Rng.Fork()
-		forced = append(forced, cfg{kind: "window-block", q: q, b: 1 + q%4, t: 1, p: q + 1, o: q + 1, n: 1, seed: s})
+		forced = append(forced, cfg{kind: "window-block", q: q, b: 1, t: 1, p: q + 1, o: q + 1, n: 1, seed: s})
 	}
 	runBatch(r, forced, 4)
 	n := 2500
